@@ -35,6 +35,10 @@ CLAIMED = {
             'Proved: the option-value parser is total and ends either INITIALIZED or DEFAULTED with the default untouched; an accepted value is empty, a whole boolean word or ws* [+-]? digits+ [K|M|G|T]? [iB|B]? (malformed => default kept); decimal values saturate at LONG_MAX/LONG_MIN; sizes give the documented KiB value saturating at MI_MAX_ALLOC_SIZE/KiB also when the multiplication or the digits overflow; only 64 bytes are parsed; _mi_vsnprintf never stores outside its buffer, terminates inside it and returns a length < bufsize for every format, argument list and buffer size; strlcpy/strlcat/mi_heap_buf_print (caller buffer of any size)/mi_out_buf store in bounds. Tie: ~67k results of the real mi_option_init, _mi_snprintf (every internal format from the AST x buffer sizes 0..40,64,100,257 x argument variants), strlcpy/strlcat, mi_heap_buf_print, mi_out_buf are recomputed by the models every run; exact-size ASan buffers, mi_stats_get_json for all sizes, mi_stats_print/mi_options_print and an independent grammar oracle search violations.',
             'Lean 4.33 kernel (+ leanchecker in the thorough tier); axioms propext, Classical.choice, Quot.sound only; hand-written models (not generated): their agreement with the code is sampled by the correspondence run; libc strtol/getenv/va_arg semantics; width fields of more than 18 digits are outside the claim (proved absent from every internal format; the C code overflows pointer arithmetic there); a 64-byte well-formed prefix of a longer environment value is accepted (values are truncated to 64 bytes before parsing).',
             'DESIGN.md §4 C20'),
+    'C18': ('Lean 4 decision-logic theorems over purge guards regenerated from the C source (guard extraction) + direct-drive correspondence of the purge functions and an OS-shim oracle under a virtual clock',
+            'Proved (one arena / one segment, sequential): the expiry bookkeeping invariant holds in every state reachable by frees and non-forced attempts; blocks scheduled at t are purged by the first non-forced attempt at or after t + delay*mult and not earlier; a pending segment purge whose expiry passed is carried out by the next non-forced mi_segment_try_purge and not earlier; every schedule moves the expiry at most max(delay, extend) beyond max(old expiry, now); delay 0 purges at once; delay -1 never purges or schedules. Every comparison in these theorems is the predicate extracted from arena.c / segment.c on this run. Tie: ~3.7k operations of the real mi_arena_schedule_purge/_mi_arena_free/mi_arenas_try_purge/mi_segment_schedule_purge/mi_segment_try_purge under the virtual clock are replayed by the model (state after every operation); the oracle runs 48 configuration rows (purge_delay -1/0/3/10 x decommit/reset x 3 workloads x seeds) through the OS shim and checks ~1.1M pages of freed memory for purge requests without any forced collect.',
+            TB + 'only the guards are regenerated, the sequencing between them is hand-written and compared with the code; several arenas sharing the global expiry are not covered by the theorem (partial); a segment is purged without force only when one of its own pages is freed or allocated after the expiry (that is what the code offers as ordinary activity) and the oracle expects exactly that.',
+            'DESIGN.md §4 C18'),
 }
 NOT_YET = 'check not built yet (work in progress in this session; see DESIGN.md §12 implementation order)'
 def main():
